@@ -45,7 +45,7 @@ def run(tier, seed):
     n = 160 if tier == 'quick' else 2500
     custom = {':--cust': 'p, div > span'}
     scs = []
-    for profile in ('forms', 'langdir', 'core', 'ns', 'forms', 'langdir', 'radios'):
+    for profile in ('forms', 'langdir', 'core', 'ns', 'forms', 'langdir', 'radios', 'ns'):
         for sc in campaign.build(rnd, profile, n // 6 + 1 if profile != 'radios' else n // 3, 0):
             top = sc.top
             pools = gen_selectors.pools_from_soup(top)
@@ -70,7 +70,7 @@ def run(tier, seed):
                                     'langdir': [':dir(ltr)', ':dir(rtl)', ':not(:dir(ltr))', 'span:dir(rtl), b:dir(ltr)', ':dir(rtl) > :dir(ltr)', ':has(> :dir(rtl))',
                                                 ':lang("")', ':lang(en)', ':not(:lang(de))', ':lang("*")', ':lang("*")', 'p:lang("*")', ':lang(fr), :lang(es)',
                                                 ':lang(fr)', ':lang("en-*")']}.get(profile, [':lang("")', ':default', ':indeterminate']))
-                if it % 4 == 1 and profile == 'ns':
+                if it % 2 == 1 and profile == 'ns':
                     from props.C11 import HTML_ONLY
                     uris = sorted({e.namespace for e in elements if e.namespace})
                     m2 = dict(nsmap or {})
